@@ -303,3 +303,15 @@ Theorem extract_cost_depth maxtx m :
 Proof. split; [apply extract_cost|intros n k; apply extract_depth]. Qed.
 
 End WithNodeHash.
+
+(* the reported matches are in strictly increasing position order: block order, no position twice *)
+From Coq Require Import Sorting.Sorted.
+Theorem extract_matches_increasing (node_hash : hash -> hash -> hash) maxtx m root ms :
+  maxtx < 2 ^ 31 -> extract node_hash maxtx m = Ok (root, ms) -> StronglySorted pos_lt ms.
+Proof.
+  intros Hmax Hex.
+  destruct (extract_sound node_hash maxtx m root ms Hmax Hex) as (Hn & _ & H & t & pad & Hacc & _).
+  destruct Hacc as (Hh & Hshape & _ & _ & _ & _ & _ & ->).
+  apply (matches_increasing node_hash (m_transactions m) H 0 t); [|exact Hshape].
+  apply width_pos. lia.
+Qed.
